@@ -141,7 +141,7 @@ def derive_consistency(rep, mir, L, impls):
                 (m1, k1, nm) = vm.run(mir.get(prefix + '::names'), [parent], m)[0]
                 names = strs(vm, m1, nm)
                 sc = m1.alloc(val)
-                outs = vm.run(mir.get(prefix + '::get_all'), [Ref(sc), parent], m1)
+                outs = vm.merge_outcomes(vm.run(mir.get(prefix + '::get_all'), [Ref(sc), parent], m1))
                 if len(outs) != 1 or outs[0][1] != 'ret': bad.append(('get_all panics or forks', str([(kk, str(vv)[:80]) for (_, kk, vv) in outs]))); k += 1; continue
                 (m2, _, got) = outs[0]; nrun += 1
                 pairs = [(deref_val(vm, m2, p.f[0]).s, p.f[1]) for p in got.items]
